@@ -158,7 +158,19 @@ def run_real(case):
         " ".join(map(str, case["gens"])),
         " ".join(map(str, case["sched"])),
     )
-    gens = [truth_table(built[ti]) for ti in case["gens"]]
+    def _raises(exc):  # a table that rejects its argument when it is created: every next() of it reports that rejection
+        def g():
+            raise exc
+            yield  # pragma: no cover
+
+        return g()
+
+    gens = []
+    for ti in case["gens"]:
+        try:
+            gens.append(truth_table(built[ti]))
+        except Exception as e:  # noqa: BLE001  (ValueError at call time instead of at the first next(): the property leaves the moment open)
+            gens.append(_raises(e))
     answers = []
     for gi in case["sched"]:
         try:
